@@ -54,10 +54,20 @@ const (
 	pkNilMap
 	pkDivZero
 	pkTypeAssert
+	// typed nil values: not panic(nil) — the interface handed to panic is non-nil, the value inside is
+	pkNilPtr
+	pkNilErrPtr
+	pkNilMapVal
+	pkNilSlice
+	pkNilFunc
 	pkCount
 )
 
-var pkNames = []string{"string", "error-sentinel", "error-wrapped", "error-custom", "int", "struct", "pointer", "rt-nil-deref", "rt-index", "rt-nil-map", "rt-div-zero", "rt-type-assert"}
+var pkNames = []string{"string", "error-sentinel", "error-wrapped", "error-custom", "int", "struct", "pointer", "rt-nil-deref", "rt-index", "rt-nil-map", "rt-div-zero", "rt-type-assert", "typed-nil-pointer", "typed-nil-error-pointer", "typed-nil-map", "typed-nil-slice", "typed-nil-func"}
+
+type ptrErr struct{ code int }
+
+func (p *ptrErr) Error() string { return "ptrErr" }
 
 var ptrPayload = &payload{A: 7, B: "p"}
 
@@ -93,6 +103,21 @@ func (b *body) throw() {
 	case pkTypeAssert:
 		var x any = b.ps
 		_ = x.(int)
+	case pkNilPtr:
+		var p *payload
+		panic(p)
+	case pkNilErrPtr:
+		var e *ptrErr
+		panic(e)
+	case pkNilMapVal:
+		var m map[string]int
+		panic(m)
+	case pkNilSlice:
+		var xs []int
+		panic(xs)
+	case pkNilFunc:
+		var f func()
+		panic(f)
 	}
 	panic("harness bug: panic kind did not panic")
 }
@@ -154,7 +179,7 @@ func samePanic(got, want any) bool {
 	return reflect.DeepEqual(got, want)
 }
 
-const rulePanic = "body drawn: returns (v,nil) / returns (v, sentinel error) where the signature has an error / panics with a drawn value (string, sentinel error, wrapped error, custom error struct, int, struct, pointer, and genuine runtime errors: nil dereference, index out of range, nil map write, integer divide by zero, failed type assertion; explicit panic(nil) excluded); oracle: normal return -> Success(v) resp. Failure with THAT very error (never a panic failure); panic -> Failure whose error exposes the thrown value through Panic() (runtime errors: a runtime.Error with the same message) or, for error values, errors.Is; the body runs exactly once and nothing propagates to the caller; non-trivial iff the body panics; distinct by printed body"
+const rulePanic = "body drawn: returns (v,nil) / returns (v, sentinel error) where the signature has an error / panics with a drawn value (string, sentinel error, wrapped error, custom error struct, int, struct, pointer, and genuine runtime errors: nil dereference, index out of range, nil map write, integer divide by zero, failed type assertion; typed nil values: nil pointer, nil error pointer, nil map, nil slice, nil func; explicit untyped panic(nil) excluded); oracle: normal return -> Success(v) resp. Failure with THAT very error (never a panic failure); panic -> Failure whose error exposes the thrown value through Panic() (runtime errors: a runtime.Error with the same message) or, for error values, errors.Is; the body runs exactly once and nothing propagates to the caller; non-trivial iff the body panics; distinct by printed body"
 
 // panicCheck runs one PANIC CAPTURE sub-check. run executes the library function on the body and returns the resulting Try
 // (the value is mapped to int: Unit -> the body's v).
